@@ -12,6 +12,7 @@ import (
 	"fmt"
 	"io"
 	"sync"
+	"testing/synctest"
 	"time"
 
 	"verif/e2"
@@ -84,8 +85,13 @@ type unit struct {
 	Applied string        `json:"fault,omitempty"`
 }
 
+var verbose bool
+
 func (u unit) String() string {
 	s := fmt.Sprintf("%s#%d ", dirName(u.Dir), u.Idx)
+	if verbose {
+		s = fmt.Sprintf("g%d@%v %s", u.Gen, u.At, s)
+	}
 	if u.Block {
 		s += fmt.Sprintf("BLOCK[%d]", u.Len)
 	} else {
@@ -97,14 +103,26 @@ func (u unit) String() string {
 	return s
 }
 
+// gate serialises synctest.Wait calls (two concurrent calls panic). It is a channel, so
+// waiting for it is a durable block and does not stop the Wait in progress.
+type gate chan struct{}
+
+func (g gate) settle() {
+	g <- struct{}{}
+	synctest.Wait()
+	<-g
+}
+
 type mbox struct {
 	w    *e2.World
+	g    gate // settle after every delivery: a serial line hands over one unit at a time
 	plan []fault
 	t1   time.Duration // pause that exceeds every T1 in play
 	t2   time.Duration // delay that exceeds every T2 in play
 	// contention barrier: hold the first unit of each direction until both are there
 	barrier   bool
 	barrierCh chan struct{}
+	stopCh    chan struct{} // closed by shutdown: pauses end at once
 	arrived   [2]bool
 
 	mu    sync.Mutex
@@ -121,7 +139,7 @@ type mbox struct {
 	yielding [2]bool // the side answered EOT while its own ENQ was outstanding
 	attempts [2]int  // ENQs for the current block since the last reset
 	lastEnq  [2]time.Duration
-	t2master time.Duration // the equipment's T2
+	t2side   [2]time.Duration // T2 of the equipment and of the host
 	// findings of the tracker
 	maxAttempts   [2]int
 	failAttempts  [][2]int // (side, attempts) whenever a side closed its socket first while it was sending
@@ -131,8 +149,8 @@ type mbox struct {
 	blockTx       map[string]int // transmissions per (gen, dir, header)
 }
 
-func newMbox(w *e2.World, plan []fault, barrier bool, t1, t2 time.Duration) *mbox {
-	return &mbox{w: w, plan: plan, barrier: barrier, barrierCh: make(chan struct{}), t1: t1, t2: t2,
+func newMbox(w *e2.World, g gate, plan []fault, barrier bool, t1, t2 time.Duration) *mbox {
+	return &mbox{w: w, g: g, plan: plan, barrier: barrier, barrierCh: make(chan struct{}), stopCh: make(chan struct{}), t1: t1, t2: t2,
 		blockTx: map[string]int{}}
 }
 
@@ -168,6 +186,11 @@ func (m *mbox) shutdown() {
 	m.mu.Lock()
 	ends := m.ends
 	m.live = false
+	select {
+	case <-m.stopCh:
+	default:
+		close(m.stopCh)
+	}
 	m.mu.Unlock()
 	for _, c := range ends {
 		if c != nil {
@@ -277,10 +300,11 @@ func (m *mbox) cutLocked(d int, acc []byte, gen int) (unit, []byte, bool) {
 			m.maxAttempts[d] = m.attempts[d]
 		}
 	case e4.EOT:
-		if m.sending[d] {
-			// the master must never grant the line while it waits (within its T2) for the
-			// answer to its own ENQ; after its retries are exhausted it is idle again
-			if d == dEH && m.masterYielded == "" && m.enqOut[d] && m.w.Now()-m.lastEnq[d] < m.t2master {
+		// An EOT from a side that waits (within its T2) for the answer to its own ENQ is a
+		// contention yield. After T2 the side has either repeated its ENQ or given up (retries
+		// exhausted; it then serves the line again until its teardown closes the socket).
+		if m.enqOut[d] && m.w.Now()-m.lastEnq[d] < m.t2side[d] {
+			if d == dEH && m.masterYielded == "" {
 				m.masterYielded = fmt.Sprintf("the equipment (master) granted the line (EOT, unit %s#%d at %v) while its own request to send was outstanding", dirName(d), m.count[d], m.w.Now())
 			}
 			m.yielding[d] = true
@@ -354,6 +378,7 @@ func (m *mbox) forward(d int, u unit, data []byte, dst *sim.Conn, gen int) {
 		select {
 		case <-m.barrierCh:
 		case <-tm.C:
+		case <-m.stopCh:
 		}
 		tm.Stop()
 	}
@@ -368,6 +393,7 @@ func (m *mbox) forward(d int, u unit, data []byte, dst *sim.Conn, gen int) {
 		m.mu.Unlock()
 		if len(b) > 0 {
 			_, _ = dst.Write(b)
+			m.quiesce()
 		}
 	}
 	note := func() {
@@ -392,7 +418,7 @@ func (m *mbox) forward(d int, u unit, data []byte, dst *sim.Conn, gen int) {
 		applied = f.String()
 		note()
 		m.mu.Unlock()
-		time.Sleep(m.t2)
+		m.pause(m.t2)
 		m.mu.Lock()
 		write(data)
 	case f.Kind == fRepl && !u.Block:
@@ -414,11 +440,32 @@ func (m *mbox) forward(d int, u unit, data []byte, dst *sim.Conn, gen int) {
 		applied = f.String()
 		note()
 		write(data[:f.Arg])
-		time.Sleep(m.t1)
+		m.pause(m.t1)
 		_, _ = dst.Write(data[f.Arg:])
+		m.quiesce()
 	default: // the fault does not apply to this kind of unit
 		write(data)
 	}
+}
+
+// quiesce lets the receiver consume and answer what was just delivered before the next
+// unit of either direction is delivered.
+func (m *mbox) quiesce() {
+	select {
+	case <-m.stopCh:
+	default:
+		m.g.settle()
+	}
+}
+
+// pause sleeps d of virtual time (or until shutdown).
+func (m *mbox) pause(d time.Duration) {
+	tm := time.NewTimer(d)
+	select {
+	case <-tm.C:
+	case <-m.stopCh:
+	}
+	tm.Stop()
 }
 
 func (m *mbox) snapshot() (trace []unit, maxAtt [2]int, failAtt [][2]int, masterYielded string, parseErrs []string) {
